@@ -674,6 +674,39 @@ def rule_tap_continuous(ctx):
     _nan_return(ctx, R, CT, "ContinuousTapControl", fc)
 
 
+def rule_converged_abs(ctx):
+    """a controller that has just written new set values may report convergence only if the set values did not move by more than the
+    tolerance in either direction"""
+    R = "CONV-ABS"
+    ctx.rule(R, "is_converged of the controllers under pandapower/control/controller compares the magnitude of a deviation with its "
+                "tolerance: in `<deviation> < tol` the deviation is wrapped in abs()/np.abs() (or the test is np.allclose/np.isclose)")
+    n = 0
+    for mn in ctx.repo.module_names():
+        if not mn.startswith("pandapower.control.controller"):
+            continue
+        for fi in ctx.repo.module(mn).functions.values():
+            if fi.name != "is_converged":
+                continue
+            for c in ast.walk(fi.node):
+                if not (isinstance(c, ast.Compare) and len(c.ops) == 1 and isinstance(c.ops[0], (ast.Lt, ast.LtE))):
+                    continue
+                rhs = norm(c.comparators[0], 60)
+                if not any(k in rhs for k in ("tol", "epsilon", "_error")):
+                    continue
+                lhs = c.left
+                if isinstance(lhs, (ast.Constant,)) or norm(lhs, 60).startswith(("len(", "self.tap_")):
+                    continue
+                n += 1
+                t = norm(lhs, 80)
+                ok = t.startswith(("abs(", "np.abs(", "np.absolute(", "numpy.abs(")) or ".abs()" in t
+                ctx.ob(R, f"{mn}::{fi.qualname}::{t[:40]}<{rhs[:20]}", ok,
+                       f"|deviation| compared with {rhs}" if ok else
+                       f"`{norm(c, 80)}` compares a signed deviation with the tolerance: any decrease counts as converged, the values written in this "
+                       "call are never followed by a power flow", fi.loc(c))
+    if n < 2:
+        ctx.fail(f"CONV-ABS: only {n} tolerance comparisons found in is_converged methods")
+
+
 def rule_tap_param(ctx):
     R = "TAP-PARAM"
     ctx.rule(R, "TrafoController._set_tap_parameters reads each tap parameter from the column of the same name; the scalar and the "
@@ -687,6 +720,14 @@ def rule_tap_param(ctx):
         ctx.ob(R, f"{TC}::TrafoController._set_tap_parameters::{name}", ok,
                f"self.{name} is read from column '{name}' of the controlled transformer" if ok else
                f"self.{name} is not read from column '{name}' of self.element at self.element_index", fp.loc(asg[0]) if asg else fp.loc())
+    # the limits are re-read at the start of every control run (the user may have changed the tap range since the controller was created)
+    fic = ctx.repo.func(f"{TC}:TrafoController.initialize_control")
+    calls = [call_name(c) or (c.func.attr if isinstance(c.func, ast.Attribute) else "") for c in calls_in(fic.node)]
+    calls = [c.split(".")[-1] for c in calls]
+    ok = "_set_tap_parameters" in calls and "_set_tap_side_coeff" in calls and calls.index("_set_tap_parameters") < calls.index("_set_tap_side_coeff")
+    ctx.ob(R, f"{TC}::TrafoController.initialize_control::re-read", ok,
+           "initialize_control re-reads all tap parameters, then the side coefficients" if ok else
+           f"initialize_control calls {calls}: tap_min / tap_max / tap_step_percent keep their creation-time values, a changed tap range is ignored", fic.loc())
     fcf = ctx.repo.func(f"{TC}:TrafoController._set_tap_side_coeff")
     br = [n for n in walk_no_nested(fcf.node) if isinstance(n, ast.If) and "single_index" in norm(n.test)]
     if not br:
@@ -733,6 +774,7 @@ def run(ctx):
     rule_tap_discrete(ctx)
     rule_tap_continuous(ctx)
     rule_tap_param(ctx)
+    rule_converged_abs(ctx)
     ctx.require_min("ORDER", 10)
     ctx.require_min("LOOP", 14)
     ctx.require_min("TAP-DISCRETE", 18)
@@ -747,6 +789,8 @@ def variants(repo):
     ct = "pandapower/control/controller/trafo/ContinuousTapControl.py"
     tc = "pandapower/control/controller/trafo_control.py"
     return [
+        V("initialize_control re-reads only the tap position", tc, replace_once("        self._set_tap_parameters(net)\n        self._set_tap_side_coeff(net)", "        self.tap_pos = read_from_net(net, self.element, self.element_index, \"tap_pos\", self._read_write_flag)\n        self._set_tap_side_coeff(net)"), "initialize_control::re-read"),
+        V("characteristic control converged on any decrease", "pandapower/control/controller/characteristic_control.py", replace_once("np.all(np.abs(diff) < self.tol)", "np.all(diff < self.tol)"), "CONV-ABS"),
         V("levels truncated to integers", rc, replace_once("level = controller.level.apply(asarray).values", "level = controller.level.apply(asarray, dtype=np.int64).values"), "levels-not-truncated"),
         V("initial run asked of the last controller only", rc, in_function("check_for_initial_run", replace_once("            if net.controller.at[ctrl.index, 'initial_run']:\n                return True", "        if net.controller.at[ctrl.index, 'initial_run']:\n            return True")), "check_for_initial_run::per-controller"),
         V("levels descending", rc, replace_once("level_list = sorted(set(np.concatenate(level)))", "level_list = sorted(set(np.concatenate(level)), reverse=True)"), "levels-ascending"),
